@@ -937,7 +937,12 @@ def solve_sylvester_diagonal(
         eigs_A, eigs_B = eigs[index[0]], eigs[index[1]]
 
         if index[0] != index[1] and index[:2] not in index_checked:
-            compare = np.equal if isinstance(Y, sympy.MatrixBase) else np.isclose
+            if isinstance(Y, sympy.MatrixBase):
+                compare = np.equal
+            else:
+
+                def compare(a, b):
+                    return np.isclose(a, b, atol=atol)
 
             if np.any(compare(eigs_A.reshape(-1, 1), eigs_B.reshape(1, -1))):
                 raise ValueError("The subspaces must not share eigenvalues.")
